@@ -251,14 +251,96 @@ pub fn compile_source(
     })
 }
 
-/// Run bytecode synchronously (one executor, as `execute_bytecode_sync`) under catch_unwind.
-pub fn run_bytecode(bytecode: Bytecode) -> EvalOutcome {
+/// `execute_bytecode_sync` with a step budget: the original loops forever when the process blocks
+/// (a receive with no sender, an await of a process that is never started, a parked spawner), so
+/// the harness runs the same sequence of calls itself and reports `Blocked` / `StepLimit` as
+/// runtime-error classes instead of hanging. Timeouts fire on a virtual clock.
+pub fn execute_bounded(
+    bytecode: Bytecode,
+    max_steps: usize,
+) -> Result<(Value, Executor<TestEffect>), Result<Error, &'static str>> {
+    execute_bounded_with(bytecode, max_steps, false)
+}
+
+/// As [`execute_bounded`]; `profile` turns on the executor's peak stack/locals/frames statistics.
+pub fn execute_bounded_with(
+    bytecode: Bytecode,
+    max_steps: usize,
+    profile: bool,
+) -> Result<(Value, Executor<TestEffect>), Result<Error, &'static str>> {
+    use quiver_core::compatibility::{
+        CompatibilityInput, compute_canonical_tuples, compute_param_compatibility,
+        compute_type_compatibility,
+    };
+    use quiver_core::executor::ProgramUpdate;
     let builtins = registry();
+    let entry = bytecode.entry.ok_or(Err("NoEntry"))?;
+    let mut executor = Executor::new(builtins, profile, 0);
+    let input = CompatibilityInput {
+        types: &bytecode.types,
+        tuples: &bytecode.tuples,
+        functions: &bytecode.functions,
+        builtins: &bytecode.builtins,
+        resource_names: &bytecode.resources,
+    };
+    let type_compatibility = compute_type_compatibility(&input);
+    let canonical_tuples = compute_canonical_tuples(&bytecode.tuples);
+    let (function_param_compatibility, builtin_param_compatibility) =
+        compute_param_compatibility(&input);
+    let update = ProgramUpdate {
+        constants: bytecode.constants,
+        functions: bytecode.functions,
+        tuples: bytecode.tuples[2..].to_vec(),
+        types: bytecode.types,
+        builtins: bytecode.builtins,
+        resources: bytecode.resources,
+        type_compatibility,
+        function_param_compatibility,
+        builtin_param_compatibility,
+        canonical_tuples,
+    };
+    executor.update_program(update);
+    executor
+        .spawn_process(0, Some(entry), vec![], Value::nil(), vec![], false)
+        .map_err(Ok)?;
+    let mut now: u64 = 0;
+    for _ in 0..max_steps {
+        let (did_work, _action) = executor.step(1000, now);
+        let process = executor.get_process(0).ok_or(Err("ProcessDisappeared"))?;
+        if let Some(result) = &process.result {
+            return match result {
+                Ok(v) => {
+                    let v = v.clone();
+                    if cfg!(debug_assertions)
+                        && let Err(e) = executor.check_refcounts()
+                    {
+                        panic!("refcount invariant violated after sync execution: {e}");
+                    }
+                    Ok((v, executor))
+                }
+                Err(e) => Err(Ok(e.clone())),
+            };
+        }
+        if !did_work {
+            match executor.next_timeout_ms() {
+                Some(t) if t > now => now = t,
+                Some(_) => now += 1,
+                None => return Err(Err("Blocked")),
+            }
+        }
+    }
+    Err(Err("StepLimit"))
+}
+
+/// Run bytecode synchronously (one executor, as `execute_bytecode_sync`, but bounded) under
+/// catch_unwind.
+pub fn run_bytecode(bytecode: Bytecode) -> EvalOutcome {
     let bc = bytecode.clone();
-    let r = guarded(move || quiver_core::execute_bytecode_sync(bytecode, &builtins, false));
+    let r = guarded(move || execute_bounded(bytecode, 200_000));
     match r {
         Err(loc) => EvalOutcome::Panic(loc),
-        Ok(Err(e)) => EvalOutcome::RuntimeError(error_class(&e), format!("{:?}", e)),
+        Ok(Err(Ok(e))) => EvalOutcome::RuntimeError(error_class(&e), format!("{:?}", e)),
+        Ok(Err(Err(why))) => EvalOutcome::RuntimeError(why, why.to_string()),
         Ok(Ok((value, executor))) => {
             let bins = Bins::Exec(&executor, &bc.constants);
             let v = dump_value(&value, &bc, &bins);
